@@ -127,8 +127,15 @@ InventoryClauses(dec, rgs, lfs, cobj, anyRejected) ==
         : k \in { x \in DOMAIN rgs : x <= Len(lfs) } }
 
 (* ---------------- C09 / C18: headers ------------------------------------- *)
-HeaderClauses(dec, rgs, lfs) ==
+HeaderClauses(dec, rgs, lfs, cobj) ==
      (IF Len(rgs) = Len(lfs) THEN {} ELSE {"C18.LogicalFileOrder"})
+  \* the first object of the ORIGIN set that follows the header is the defining origin: the first origin added to the logical file
+  \cup UNION { LET rg == rgs[k]
+                   orgs == SelectSeq(cobj, LAMBDA c : c.lf = lfs[k].lf /\ c.cls = sORIGIN)
+               IN IF rg.from + 1 <= rg.to /\ dec[rg.from + 1].k = "E" /\ dec[rg.from + 1].st = sORIGIN
+                     /\ Len(dec[rg.from + 1].objs) >= 1 /\ Len(orgs) >= 1 /\ dec[rg.from + 1].objs[1].name # orgs[1].name
+                  THEN {"C09.DefiningOriginFirst"} ELSE {}
+             : k \in { x \in DOMAIN rgs : x <= Len(lfs) } }
   \cup UNION { LET hdr == dec[rgs[k].from] IN
                IF Len(hdr.objs) # 1 THEN {}
                ELSE LET o == hdr.objs[1]
@@ -272,10 +279,9 @@ FrameClauses(dec, rgs, lfs, cobj, fe, multi) ==
        \cup (IF uSpc /\ ~kept(lSPACING, spc) THEN {"C13.UserValueKept"} ELSE {})
        \cup (IF uDir /\ ~kept(lDIRECTION, dir) THEN {"C13.UserValueKept"} ELSE {})
        \cup (IF indexed
-             THEN (IF ~uMin /\ OneNum(imin).ok /\ OneNum(imin).v # vmin THEN {"C13.IndexMin"} ELSE {})
-             \cup (IF ~uMin /\ imin.absent THEN {"C13.IndexMin"} ELSE {})
-             \cup (IF ~uMax /\ OneNum(imax).ok /\ OneNum(imax).v # vmax THEN {"C13.IndexMax"} ELSE {})
-             \cup (IF ~uMax /\ imax.absent THEN {"C13.IndexMax"} ELSE {})
+             \* (the index values are integers below 2^20 here, so a truthful bound decodes to such an integer)
+             THEN (IF ~uMin /\ ~(OneNum(imin).ok /\ OneNum(imin).v = vmin) THEN {"C13.IndexMin"} ELSE {})
+             \cup (IF ~uMax /\ ~(OneNum(imax).ok /\ OneNum(imax).v = vmax) THEN {"C13.IndexMax"} ELSE {})
              \cup (IF ~uSpc /\ ~spc.absent /\ n >= 2 /\ OneNum(spc).ok
                    THEN LET s == OneNum(spc).v IN
                         (IF \A i \in 1..(n - 1) :
